@@ -3,7 +3,7 @@
 #   git -C /repo apply patch.diff ; ./check <id> quick ; git -C /repo checkout -- .
 # and records how the change was caught (broken obligation / correspondence mismatch / failing input on the
 # implementation).  The evidence directory is saved and restored, so nothing written under a seeded change is kept.
-# Output: /verif/seeded/RESULTS.json and /verif/seeded/RESULTS.md.   usage: tools/seed_sweep.py [Cxx ...]
+# Output: /verif/seeded/RESULTS.json and /verif/seeded/RESULTS.md.   usage: [SLOTS=ij] [MISSED_ONLY=1] tools/seed_sweep.py [Cxx ...]
 import json, os, subprocess, shutil, sys, glob, re, time
 V='/verif'
 only=sys.argv[1:]
@@ -22,6 +22,7 @@ try:
         pid=d.split('/')[3]; k=d.split('/')[4]
         if only and pid not in only: continue
         if k not in os.environ.get('SLOTS','abcdefghijklmnopqrstuvwxyz'): continue
+        if os.environ.get('MISSED_ONLY') and results.get(f'{pid}/{k}',{}).get('caught'): continue   # re-sweep what the table lists as not caught
         meta=json.load(open(d+'/meta.json'))
         rc,out=sh(f'git -C /repo apply {d}/patch.diff')
         if rc!=0:
